@@ -3,6 +3,7 @@ import Driver.Time
 import Driver.Codec13
 import Driver.Validator
 import Driver.Addr
+import Driver.Acl
 
 def main (args : List String) : IO UInt32 := do
   match args with
@@ -11,6 +12,7 @@ def main (args : List String) : IO UInt32 := do
   | ["codec13"] => Codec13Drv.main; return 0
   | ["validator"] => ValidatorDrv.main; return 0
   | ["addr"] => AddrDrv.main; return 0
+  | ["acl"] => AclDrv.main; return 0
   | _ =>
     IO.eprintln "usage: driver <family>   (lines on stdin)"
     return 2
